@@ -51,7 +51,8 @@ SCENARIOS = ["doc_date", "doc_date_ctor", "uncertainty", "sec_card", "prop_card"
              "values_unconvertible", "dtype_unconvertible", "create_property_bad_values",
              "merge_unconvertible_empty_typed", "link_bad_after_good", "link_merge_refused",
              "include_merge_refused", "include_bad_after_good", "link_difftype_refused",
-             "merge_difftype_deep", "link_difftype_deep", "merge_strict_multiline", "merge_casetype"]
+             "merge_difftype_deep", "link_difftype_deep", "merge_strict_multiline", "merge_casetype",
+             "relink_after_target_edit"]
 
 
 def _secs(doc):
@@ -224,6 +225,31 @@ def scenario_body(case):
             universe = snap.reachable([doc, other])
             before = snap.identity(universe)
             dest.merge(src, strict=True)
+        elif name == "relink_after_target_edit":
+            # a resolved link is resolved once more after its target became unmergeable
+            target = odml.Section(name="rl-target", type="t", definition="target def", parent=doc)
+            odml.Property(name="tp", values=[1, 2], parent=target)
+            odml.Section(name="tsub", type="t", parent=target)
+            holder = odml.Section(name="rl-holder", type="t", parent=doc)
+            lk = odml.Section(name="rl-linking", type="t", parent=holder)
+            odml.Property(name="own", values=[5], dtype="int", parent=lk)
+            odml.Section(name="ownsub", type="t", parent=lk)
+            lk.link = "/rl-target"
+            if not lk.is_merged:
+                raise RuntimeError("scenario setup: link not resolved")
+            if b % 2:
+                odml.Property(name="own", values=["not a number"], dtype="string", parent=target)
+            else:
+                odml.Section(name="ownsub", type="other-type", parent=target)
+            universe = snap.reachable([doc, other])
+            before = snap.identity(universe)
+            route = (b // 2) % 3
+            if route == 0:
+                lk.link = lk.link
+            elif route == 1:
+                lk.link = "/rl-target"
+            else:
+                doc.finalize()
         elif name == "merge_wrong_kind":
             if b % 2:
                 other.properties[0].merge(sec)
